@@ -285,6 +285,10 @@ pub struct Sim {
     /// is chosen although it is ready, hold it back until nothing else can
     /// run, so that everything that can become ready before it looks does
     pub stall_at: Option<u64>,
+    /// timed abort: SIGKILL the process group of top-level command `c<idx>`
+    /// once the run has reached this scheduling step (whatever its processes
+    /// are doing then -- typically waiting for a running script)
+    pub kill_cmd_at: Option<(usize, u64)>,
     /// number of ready select/poll wake-ups of redo processes chosen so far
     pub wake_count: u64,
     pub stall_fired: Option<String>,
@@ -380,6 +384,7 @@ impl Sim {
             kill_scripts: false,
             kill_fired: None,
             stall_at: None,
+            kill_cmd_at: None,
             wake_count: 0,
             stall_fired: None,
             pct_change_points: pts,
@@ -451,6 +456,10 @@ impl Sim {
         }
         if pid == 0 {
             unsafe {
+                // every top-level command is a process group of its own, as a
+                // job started from a shell is: a tree kill is a signal to
+                // that group (^C, timeout(1), a CI cancel)
+                libc::setpgid(0, 0);
                 if libc::chdir(cwd_c.as_ptr()) < 0 {
                     libc::_exit(96);
                 }
@@ -480,6 +489,9 @@ impl Sim {
                 libc::execve(exe_c.as_ptr(), argv_p.as_ptr(), env_p.as_ptr());
                 libc::_exit(95);
             }
+        }
+        unsafe {
+            libc::setpgid(pid, pid);
         }
         self.pending_top.insert(pid, (idx, lid));
         self.expected.insert(pid);
@@ -1197,6 +1209,47 @@ impl Sim {
         self.finish_death(i)
     }
 
+    /// SIGKILL to the process group of the top-level command that process `i`
+    /// belongs to.  Processes of the command that have left the group live on.
+    pub fn kill_group_of(&mut self, i: usize) -> Result<(), SimError> {
+        let pgid = match proc_pgrp(self.procs[i].pid) {
+            Some(g) => g,
+            None => return self.kill_proc(i),
+        };
+        let members: Vec<usize> = (0..self.procs.len())
+            .filter(|j| self.procs[*j].alive() && proc_pgrp(self.procs[*j].pid) == Some(pgid))
+            .collect();
+        for j in &members {
+            self.procs[*j].killed_by_sim = true;
+        }
+        unsafe { libc::kill(-pgid, libc::SIGKILL) };
+        for j in members {
+            let fd = self.procs[j].fd;
+            if fd >= 0 {
+                let t0 = Instant::now();
+                loop {
+                    let mut pfd = libc::pollfd {
+                        fd,
+                        events: libc::POLLIN,
+                        revents: 0,
+                    };
+                    let r = unsafe { libc::poll(&mut pfd, 1, 1000) };
+                    if r > 0 && Sim::recv_msg(fd).is_none() {
+                        break;
+                    }
+                    if t0.elapsed() > Duration::from_secs(10) {
+                        return Err(SimError::Harness("killed process does not die".into()));
+                    }
+                }
+                unsafe { libc::close(fd) };
+                self.procs[j].fd = -1;
+            }
+            self.procs[j].exec_pending = false;
+            self.finish_death(j)?;
+        }
+        Ok(())
+    }
+
     pub fn kill_all(&mut self) -> Result<(), SimError> {
         let live: Vec<usize> = (0..self.procs.len())
             .filter(|i| self.procs[*i].alive())
@@ -1239,6 +1292,29 @@ impl Sim {
         }
         if self.step >= self.knobs.max_steps {
             return Ok(StepOutcome::StepLimit);
+        }
+        if let Some((ci, at)) = self.kill_cmd_at {
+            if self.step >= at {
+                self.kill_cmd_at = None;
+                let lid = format!("c{}", ci);
+                if let Some(i) = (0..self.procs.len())
+                    .find(|i| self.procs[*i].lid == lid && self.procs[*i].alive())
+                {
+                    let what = format!(
+                        "kill-tree {} (process group of command {}) at step {}",
+                        self.procs[i].base_name(),
+                        ci,
+                        self.step
+                    );
+                    self.log(&lid, EvKind::Fault, what.clone());
+                    self.kill_fired = Some(what);
+                    *self.fault_counts.entry("kill-tree".into()).or_insert(0) += 1;
+                    self.decisions.push(Decision { p: lid, v: 'K' });
+                    self.kill_group_of(i)?;
+                    self.step += 1;
+                    return Ok(StepOutcome::Progress);
+                }
+            }
         }
         loop {
             let mut en = self.enabled()?;
@@ -1383,7 +1459,7 @@ impl Sim {
                             .or_insert(0) += 1;
                         self.decisions.push(Decision { p: lid, v: 'K' });
                         if tree {
-                            self.kill_all()?;
+                            self.kill_group_of(i)?;
                         } else {
                             self.kill_proc(i)?;
                         }
@@ -1506,6 +1582,13 @@ fn pid_alive(pid: i32) -> bool {
         None | Some('Z') | Some('X') => false,
         _ => true,
     }
+}
+
+/// Process group of a live process (field 5 of /proc/<pid>/stat).
+fn proc_pgrp(pid: i32) -> Option<i32> {
+    let s = std::fs::read_to_string(format!("/proc/{}/stat", pid)).ok()?;
+    let r = s.rfind(')')?;
+    s[r + 1..].split_whitespace().nth(2)?.parse().ok()
 }
 
 fn proc_state(pid: i32) -> Option<char> {
